@@ -52,11 +52,30 @@ pub fn step_of(c: u16) -> u16 { (c >> 4) & 0xf }
 pub fn branch_of(c: u16) -> u16 { (c >> 8) & 0xf }
 pub fn kind_of(c: u16) -> u16 { c >> 12 }
 
+#[cfg(not(kani))]
+static EVLOCK: std::sync::Mutex<()> = std::sync::Mutex::new(());
 pub fn ev(c: u16) {
+    // natively (replay / native sweeps of the thread-spawning macros) events may come from several threads: the lock
+    // makes the recorded order a linearisation of them
+    #[cfg(not(kani))]
+    let _g = EVLOCK.lock().unwrap_or_else(|e| e.into_inner());
     unsafe {
         if WHICH == 0 { if TLEN < TMAX { TRACE[TLEN] = c; } TLEN += 1; }
         else { if ELEN < TMAX { ETRACE[ELEN] = c; } ELEN += 1; }
     }
+}
+/// native only: the two traces hold the same events, order disregarded (thread-spawning macros)
+#[cfg(not(kani))]
+pub fn traces_same_multiset() -> bool {
+    let (mut a, mut b): (Vec<u16>, Vec<u16>) = unsafe { (TRACE[..TLEN.min(TMAX)].to_vec(), ETRACE[..ELEN.min(TMAX)].to_vec()) };
+    a.sort(); b.sort();
+    a == b && tlen() == elen()
+}
+/// native only: no event of step k+1 is recorded before an event of step k
+#[cfg(not(kani))]
+pub fn trace_steps_monotone() -> bool {
+    let n = tlen().min(TMAX);
+    (1..n).all(|k| step_of(tr(k - 1)) <= step_of(tr(k)))
 }
 pub fn tlen() -> usize { unsafe { TLEN } }
 pub fn elen() -> usize { unsafe { ELEN } }
